@@ -240,6 +240,9 @@ type vfWorldConf struct {
 	// ApplyClientFiltering.
 	Clients []*client.Persistent
 	DHCPMAC map[netip.Addr]net.HardwareAddr
+	// DHCPEnabled makes the DHCP server double report that it is enabled (it
+	// has no leases): names under the local domain "lan" are then its.
+	DHCPEnabled bool
 
 	AAAADisabled bool
 	RefuseAny    bool
@@ -377,7 +380,7 @@ func vfNewWorld(c *vfWorldConf) (w *vfWorld, err error) {
 		return nil, fmt.Errorf("VERIF-INCONCLUSIVE mkdir: %w", err)
 	}
 
-	w = &vfWorld{dir: dir, conf: c, ups: &vfUpstream{}, dhcp: &vfDHCP{macByIP: c.DHCPMAC}}
+	w = &vfWorld{dir: dir, conf: c, ups: &vfUpstream{}, dhcp: &vfDHCP{macByIP: c.DHCPMAC, enabled: c.DHCPEnabled}}
 	defer func() {
 		if err != nil {
 			w.close()
